@@ -285,7 +285,10 @@ def make_graph_node(rng, tag):
     rt.BEH[fa] = lambda kw, _f=fa: rt.term(_f, kw, 1)
     rt.BEH[fb] = lambda kw, _f=fb, _n=(2 if two else 1): rt.term(_f, kw, _n)
     rt.KIND[fa] = rt.KIND[fb] = "fn"
-    inner = Graph([FunctionNode(f1, name="f", output_name="m"), FunctionNode(f2, name="g", output_name=("r1", "r2") if two else "r1")], name=tag)
+    # the first inner node may EMIT an ordering signal: the inner graph then lists that name among its outputs (before
+    # the data outputs of g), the wrapper does not - positions in the two lists differ
+    emits = rng.random() < 0.4
+    inner = Graph([FunctionNode(f1, name="f", output_name="m", emit=("sig",) if emits else None), FunctionNode(f2, name="g", output_name=("r1", "r2") if two else "r1", wait_for=("sig",) if emits and rng.random() < 0.5 else None)], name=tag)
     bound = {}
     if rng.random() < 0.4:
         inner = inner.bind(c=f"bound:{tag}.c")
